@@ -72,8 +72,7 @@ def run_case(desc, prop):
     miss = missing_from_registry()
     if miss:
         return {"status": "inconclusive", "reason": "exported strategies not in registry: %s" % miss}
-    c = poolcase.build(desc)
-    why = poolcase.domain(c)
+    c, why = poolcase.build_in_domain(desc)
     if why:
         return {"status": "skip", "skip_reason": why}
     e = c.entry
